@@ -15,10 +15,23 @@ Comps == {[kind |-> "comp", deg |-> 0, prefix |-> p, left |-> l, right |-> r] :
             l \in Leaves, r \in Leaves, p \in OuterPrefixes}
 ASSUME ndJsonSerialize(IOEnv.MODEL_FILE, SetToSeq(Leaves \cup Comps))
 
-(* parameter grid: amplitude A, scale 10^e, location mu, fraction f/4 *)
-Grid == {[A |-> A, e |-> e, mu |-> mu, f |-> f] :
+(* parameter grid: amplitude A * 10^ea, scale 10^e, location mu * 10^em, fraction f/4        *)
+(* (fe = 1: the fraction is moved by 2^-30 into the interior of [0, 1])                       *)
+Grid == {[A |-> A, ea |-> 0, e |-> e, mu |-> mu, em |-> 0, f |-> f, fe |-> 0] :
            A \in {-3, -1, 2, 7}, e \in -6..6, mu \in {-5, 0, 3, 1000}, f \in 0..4}
-ASSUME ndJsonSerialize(IOEnv.GRID_FILE, SetToSeq(Grid))
+(* hardening round: uniformly tiny / huge amplitudes and locations (hidden absolute           *)
+(* thresholds), fractions a hair inside the interval.  A location is kept within 10^9 scales  *)
+(* of the origin so that x still resolves the peak in double precision.                       *)
+LocPairs == {<<0, 0>>, <<3, -9>>, <<-5, 6>>, <<1, 9>>}
+Extreme == {g \in {[A |-> A, ea |-> ea, e |-> e, mu |-> lp[1], em |-> lp[2], f |-> f, fe |-> fe] :
+                     A \in {-3, 7}, ea \in {-100, -12, 12, 100}, e \in {-6, 0, 6}, lp \in LocPairs,
+                     f \in {0, 2, 4}, fe \in {0, 1}} :
+              g.mu = 0 \/ g.em - g.e <= 9}
+ASSUME ndJsonSerialize(IOEnv.GRID_FILE, SetToSeq(Grid \cup Extreme))
+
+(* every evaluation variant (element types of x and of the parameters, layout of x, order of  *)
+(* the keyword arguments); the driver attaches them to the grid points and polynomials in turn *)
+ASSUME ndJsonSerialize(IOEnv.VARIANT_FILE, SetToSeq(EvalVariants))
 
 (* canonical unit assignments *)
 Units == {<<p, i, j>> : p \in {0, -3}, i \in {-1, 0, 1}, j \in {-1, 0, 1}}
@@ -27,7 +40,8 @@ UCases == {[kind |-> k, ux |-> ux, pu |-> Canonical(k, ux, uy)] : k \in UKinds, 
 ASSUME \A c \in UCases : ResultUnit(c.kind, c.pu, c.ux)[1] = 1
 ASSUME ndJsonSerialize(IOEnv.UNIT_FILE, SetToSeq(UCases))
 
-ASSUME PrintT(<<"GEN", Cardinality(Leaves \cup Comps), Cardinality(Grid), Cardinality(UCases)>>)
+ASSUME PrintT(<<"GEN", Cardinality(Leaves \cup Comps), Cardinality(Grid \cup Extreme), Cardinality(UCases),
+                 Cardinality(EvalVariants)>>)
 
 VARIABLE x
 Init == x = 0
